@@ -105,6 +105,33 @@ def _one(args):
                         except Exception as e:
                             out.append(({"api": "aggregate", "kind": "exception", "exc": type(e).__name__, **base_sig},
                                         f"aggregate access raised {e!r} for {m}", detail))
+    # ---- the same rows as TWO SENSITIVE features and no control feature: aggregates over the whole product (NaN cells skipped)
+    if control and len(rows) > 1:
+        import pandas as pd
+        d = concrete(rows, order_for(rows, seed, 1))
+        sf2 = pd.DataFrame({"sfa": d["c"], "sfb": d["g"]})
+        for weighted in (True, False):
+            exp_all = case["w" if weighted else "u"]
+            sp = {m: {"sample_weight": d["w"]} for m in METRICS} if weighted else None
+            detail = {"form": "dict", "weighted": weighted, "two_sensitive_features": True, "data": d}
+            sig2 = {"form": "dict", "control": False, "two_sf": True}
+            try:
+                mf = fm.MetricFrame(metrics={m: fns[m] for m in METRICS}, y_true=d["y"], y_pred=d["p"], sensitive_features=sf2, sample_params=sp)
+                nev += 1
+                for m in METRICS:
+                    e2 = exp_all[METRICS.index(m)]["two_sf"]
+                    _cmp(out, {"api": "overall", **sig2}, mf.overall[m], e2["overall"], f"overall[{m}] (two sensitive features)", detail)
+                    for errors in ("raise", "coerce"):
+                        _cmp(out, {"api": "group_min", "errors": errors, **sig2}, mf.group_min(errors=errors)[m], e2["gmin"], f"group_min[{m}] (two sensitive features)", detail)
+                        _cmp(out, {"api": "group_max", "errors": errors, **sig2}, mf.group_max(errors=errors)[m], e2["gmax"], f"group_max[{m}] (two sensitive features)", detail)
+                        for method, key in (("between_groups", "b"), ("to_overall", "o")):
+                            _cmp(out, {"api": "difference", "method": method, "errors": errors, **sig2}, mf.difference(method=method, errors=errors)[m], e2["diff_" + key],
+                                 f"difference({method})[{m}] (two sensitive features)", detail)
+                            if not (m in SIGNED and e2["ratio_" + key][1] == 0):
+                                _cmp(out, {"api": "ratio", "method": method, "errors": errors, **sig2}, mf.ratio(method=method, errors=errors)[m], e2["ratio_" + key],
+                                     f"ratio({method})[{m}] (two sensitive features)", detail)
+            except Exception as e:
+                out.append(({"api": "MetricFrame", "kind": "exception", **sig2}, f"MetricFrame(two sensitive features) raised {e!r}", detail))
     flags = (bool(case["empty_cell"]), bool(case["singleton"]),
              any(not x[1] for k in ("w", "u") for pm in case[k] for x in [pm["ratio_b"][0]]))
     return out, nev, flags
